@@ -295,6 +295,8 @@ def get_max_advance(world: World, sim: SimRunner, until: int) -> int:
     """
     ancs_next_steps: List[Time] = []
     for anc_sim, distance in sim.triggering_ancestors.items():
+        if anc_sim.current_step is not None:
+            ancs_next_steps.append((anc_sim.current_step + distance).time)
         if anc_sim.next_steps:
             ancs_next_steps.append((anc_sim.next_steps[0] + distance).time)
 
@@ -466,6 +468,10 @@ def advance_progress(sim: SimRunner, world: World):
         pre_sim.next_steps[0] + distance
         for pre_sim, distance in sim.triggering_ancestors.items()
         if pre_sim.next_steps
+    ] + [
+        pre_sim.current_step + distance
+        for pre_sim, distance in sim.triggering_ancestors.items()
+        if pre_sim.current_step is not None
     ]
 
     next_step_progress: List[TieredTime] = [sim.next_steps[0]] if sim.next_steps else []
